@@ -19,7 +19,10 @@ PropVerdict(r) ==
   ELSE IF ~StrictFilters(r.outN, r.outS) THEN "strict-changed-result"
   ELSE IF (r.pdf = "current_period" \/ r.y4) /\ ~ClockFree(r.outS, r.outS2) THEN "strict-result-depends-on-reference-time"
   ELSE IF ~RequireFilters(r.outN, r.outR) THEN "require-parts-changed-result"
-  ELSE IF (r.pdf = "current_period" \/ r.y4) /\ ~RequireClockFree(DtOf(r.outR), DtOf(r.outR2), R) THEN "required-part-depends-on-reference-time"
+  \* (r.conv: the result is re-expressed in another zone (TO_TIMEZONE) - a part the string leaves open and that is NOT required,
+  \* say the day of 'March 2015', comes from the reference and can carry the converted instant across a month end; the
+  \* required parts are then compared only when every part is required)
+  ELSE IF (r.pdf = "current_period" \/ r.y4) /\ (~r.conv \/ R = {"day", "month", "year"}) /\ ~RequireClockFree(DtOf(r.outR), DtOf(r.outR2), R) THEN "required-part-depends-on-reference-time"
   \* a string with fewer than three date tokens cannot state day, month and year.  Known finding C10-token-reused: under a
   \* year-first order the number displaced by the four-digit year is used for BOTH the month and the day
   ELSE IF r.maxparts < 3 /\ (r.outS # None \/ r.outR # None) THEN (IF r.dorder \in {"YMD", "YDM"} THEN "known" ELSE "strict-result-without-all-parts")
